@@ -117,6 +117,8 @@ ALPHA = ["Em", "Ei", "Ej", "El", "Ek", "Di", "Dj", "R", "Rr"]
 #             load of that very file (after its bytes were read); only possible with the engine's own loader
 #   Sm Sj Si Sk Sl  same-size rewrite IN PLACE of sub/main, sub/inc, inc, sub/lib, lib with the mtime restored (ctime moves)
 #   Nm Nj     same-size rewrite through a NEW inode (os.replace) with the mtime restored
+#   Br Bc Bd Bx Ba Be  a SECOND engine is constructed that differs in relative_includes / cache_enabled / root_dir / context /
+#             python allow-list / encoding and stays alive; Ub renders two templates with it
 ADV = ["Lm", "Lj", "Li", "Sm", "Sj", "Si", "Sk", "Sl", "Nm", "Nj"]
 OP_PATH = {"m": "sub/main.txt", "j": "sub/inc.txt", "i": "inc.txt", "k": "sub/lib.txt", "l": "lib.txt"}
 
@@ -174,6 +176,10 @@ def interpret(c, engine):
             edit("inc.txt", None)
         elif h == "Dj":
             edit("sub/inc.txt", None)
+        elif h[0] == "B":                            # another engine with ONE other setting is constructed (and stays alive)
+            engine.other(h[1])
+        elif h == "Ub":                              # ... and used
+            engine.use_other()
         elif h in ("Xi", "Xj"):                      # the include file is replaced by a DIRECTORY of that name
             edit("inc.txt" if h == "Xi" else "sub/inc.txt", None, "directory")
         elif h == "R":
@@ -212,6 +218,40 @@ class RealEngine:
         if c["base"]:
             cfg["context"] = dict(c["base"])
         self.eng = J.get_instance(cfg)
+
+    def other(self, what):
+        """a second live engine that differs in one per-engine setting: r relative_includes, c cache_enabled,
+        d root_dir, x context, a python allow-list, e encoding"""
+        c = self.c
+        cfg = {"cache_enabled": c["cache"], "relative_includes": c["rel"]}
+        if c["root"]:
+            cfg["root_dir"] = self.T
+        if c["base"]:
+            cfg["context"] = dict(c["base"])
+        if what == "r":
+            cfg["relative_includes"] = not c["rel"]
+        elif what == "c":
+            cfg["cache_enabled"] = not c["cache"]
+        elif what == "d":
+            if c["root"]:
+                del cfg["root_dir"]
+            else:
+                cfg["root_dir"] = os.path.join(self.T, "sub")
+        elif what == "x":
+            cfg["context"] = {"a": "OTHER-ENGINE", "b": "OTHER-ENGINE", "z": None}
+        elif what == "a":
+            cfg["provide_python_modules"] = ["*"]
+        elif what == "e":
+            cfg["encoding"] = "latin-1"
+        self.others = getattr(self, "others", []) + [(J.get_instance(cfg), cfg)]
+
+    def use_other(self):
+        for eng, cfg in getattr(self, "others", []):
+            for name in ("main.txt", "sub/main.txt"):
+                try:
+                    eng.render(name if "root_dir" in cfg else os.path.join(self.T, name), {"a": "ob", "b": "ob"})
+                except Exception:          # noqa
+                    pass
 
     def edit(self, rel, content, mode):
         p = os.path.join(self.T, rel)
@@ -294,7 +334,15 @@ def run_helper(c):
             except RuntimeError:
                 res.append(False)
     else:
-        for m in c["queries"]:
+        for i, m in enumerate(c["queries"]):
+            if c.get("other_allow") and i == len(c["queries"]) // 2:
+                # a second engine with ANOTHER allow-list is constructed and asked the same things meanwhile
+                other = J.get_instance({"provide_python_modules": c["other_allow"]})._environment.globals["python"]
+                for q in c["queries"]:
+                    try:
+                        other._check_access(q)
+                    except RuntimeError:
+                        pass
             try:
                 helper._check_access(m)
                 res.append(True)
@@ -428,6 +476,15 @@ class C17(Check):
         for root, cache, rel in self.configs():
             for h in (["R", "Xj", "R", "Ej", "R"], ["R", "Xi", "R", "Ei", "R"], ["Xj", "R"]):
                 yield {"kind": 0, "root": root, "cache": cache, "rel": rel, "base": [], "relname": False, "history": h}
+        # two live engines: a second engine that differs in one per-engine setting is constructed (and used) between
+        # renders of the first; the first engine's renders are those of its own history (C17_engines_independent)
+        for root, cache, rel in self.configs():
+            for b in "rcdxae":
+                for h in (["R", "R", "B" + b, "R", "Rr"], ["R", "B" + b, "Ub", "R", "Ej", "R"], ["B" + b, "R", "Ub", "Em", "R"],
+                          ["R", "B" + b, "Br", "Bc", "Ub", "R"]):
+                    n += 1
+                    yield {"kind": 0, "root": root, "cache": cache, "rel": rel, "base": [("a", "CFG")] if n % 2 else [],
+                           "relname": False, "history": h}
         # D18 family: the same mtime-keeping edits with root_dir + cache (jinja2.FileSystemLoader, mtime-only test);
         # and with root_dir without cache, where they must be noticed
         for h in (["R", "Sm", "R"], ["R", "Sj", "R"], ["R", "Sk", "R"], ["R", "Nm", "R"], ["R", "Nj", "R"]):
@@ -459,6 +516,9 @@ class C17(Check):
             for b in ENTRIES:
                 if a != b:
                     yield {"kind": 1, "allow": [a, b], "queries": qs[::2] + qs[1::2], "limit": 1024}
+        for a in ENTRIES:
+            for other in (["*"], ["os.*", "o"], [""]):
+                yield {"kind": 1, "allow": [a], "queries": qs, "limit": 1024, "other_allow": other}
         for allow in (["os"], ["os.*"], ["os.path"], ["*"], ["json.*", "posixpath"], ["o.*"], ["os.path.*"], ["js*"]):
             yield {"kind": 1, "allow": allow, "queries": REAL_MODULES + REAL_MODULES, "limit": 1024, "via_template": True}
         # the reset of the result cache at 1024 entries
@@ -547,7 +607,8 @@ class C17(Check):
         if c["kind"] == 2:
             return {"provide_python_modules": c["allow"], "template": "{% set v = python[KEY] %}...", "keys": c["keys"]}
         return {"allow": c["allow"], "queries": c["queries"][:60], "n_queries": len(c["queries"]),
-                "as_str": c.get("as_str", False), "via_template": c.get("via_template", False)}
+                "as_str": c.get("as_str", False), "via_template": c.get("via_template", False),
+                "second_engine_with_allow_list_constructed_midway": c.get("other_allow")}
 
     def shrink(self, c):
         if c["kind"] == 0:
